@@ -33,6 +33,9 @@ func init() {
 				"  | other (text : String)\n" +
 				"  deriving DecidableEq, Repr\n", nil
 		}},
+		// what `c.m`, `c.ch`, `c.L` are (field types, the import behind `sync`), pointer receivers, the constructor
+		Site{Module: mod, Pkg: pkg, Name: "condWiring", Kind: Custom, Custom: structWiring("ContextCond", "cond", "Broadcast", "Signal", "Wait")},
+		Site{Module: mod, Pkg: pkg, Func: "NewContextCond", Name: "newContextCondStmts", Kind: StmtList, Sel: ""},
 		Site{Module: mod, Pkg: pkg, Func: "NewContextCond", Name: "newCap", Kind: Custom, Custom: chanCap},
 		Site{Module: mod, Pkg: pkg, Func: "ContextCond.Broadcast", Name: "broadcastCap", Kind: Custom, Custom: chanCap},
 		Site{Module: mod, Pkg: pkg, Func: "ContextCond.Signal", Name: "signalArms", Kind: Select, Sel: "select[0]"},
@@ -45,7 +48,10 @@ func init() {
 	)
 }
 
-// chanCap emits the capacity of the first `make(chan struct{}[, n])` of the function (0 = unbuffered).
+// chanCap emits the capacity of the one `make(chan struct{}[, n])` of the function (0 = unbuffered). The
+// function must contain exactly one `make`, and that one must be what is stored into the `ch` field (`ch:
+// make(…)` in a composite literal or `c.ch = make(…)`): a decoy `_ = make(chan struct{}, 1)` in front of the
+// real one (audit C16 F6) is an extraction error.
 func chanCap(c *Ctx, s *Site) (string, error) {
 	fd, err := c.FindFunc(s.Pkg, s.Func)
 	if err != nil {
@@ -56,6 +62,27 @@ func chanCap(c *Ctx, s *Site) (string, error) {
 		return "", err
 	}
 	call := n.(*ast.CallExpr)
+	makes, stored := 0, false
+	ast.Inspect(fd.Body, func(x ast.Node) bool {
+		switch y := x.(type) {
+		case *ast.CallExpr:
+			if id, ok := y.Fun.(*ast.Ident); ok && id.Name == "make" {
+				makes++
+			}
+		case *ast.KeyValueExpr:
+			if k, ok := y.Key.(*ast.Ident); ok && k.Name == "ch" && y.Value == ast.Expr(call) {
+				stored = true
+			}
+		case *ast.AssignStmt:
+			if len(y.Lhs) == 1 && len(y.Rhs) == 1 && c.Text(y.Lhs[0]) == "c.ch" && y.Rhs[0] == ast.Expr(call) && y.Tok == token.ASSIGN {
+				stored = true
+			}
+		}
+		return true
+	})
+	if makes != 1 || !stored {
+		return "", fmt.Errorf("%s: expected exactly one make(...), stored into the ch field (found %d make calls, stored into ch: %v)", s.Func, makes, stored)
+	}
 	if len(call.Args) == 0 || c.Text(call.Args[0]) != "chanstruct{}" {
 		return "", fmt.Errorf("first make in %s is not make(chan struct{} ...)", s.Func)
 	}
